@@ -199,6 +199,25 @@ func c10Build(id int, k int, comps []*c10Type) *c10Type {
 				add([]c10Val{a, b})
 			}
 		}
+		// long literals over leaf elements (lengths 9 and 33; equal, differing in the last, in the first
+		// element): an equality that looks at a bounded prefix, samples, or switches strategy with the
+		// size is only visible beyond the exhaustive lengths 0..2
+		if len(e.comps) == 0 && len(ev) >= 2 {
+			for _, n := range []int{9, 33} {
+				rpt := func(first, mid, last c10Val) []c10Val {
+					vs := make([]c10Val, n)
+					for i := range vs {
+						vs[i] = mid
+					}
+					vs[0], vs[n-1] = first, last
+					return vs
+				}
+				for _, vs := range [][]c10Val{rpt(ev[0], ev[0], ev[0]), rpt(ev[0], ev[0], ev[1]), rpt(ev[1], ev[0], ev[0])} {
+					t.vals = append(t.vals, c10Val{can(vs...), lit(vs...), "literal(long)"},
+						c10Val{can(vs...), "slice.Map(" + idf + ", " + lit(vs...) + ")", "Map(long)"})
+				}
+			}
+		}
 	}
 	return t
 }
